@@ -10,10 +10,12 @@ from __future__ import annotations
 
 import ast
 import dataclasses
+import enum
 import glob
 import os
 import sys
 import textwrap
+import types
 from typing import TypeVar
 
 from vp import harness  # noqa: F401  (asserts that pyanalyze is the tree under test)
@@ -339,37 +341,39 @@ def diff_reason(x, y, bad, owner: str = "value", depth: int = 0) -> str:
     return owner
 
 
-def find_typevar_holder(root, domain) -> str:
-    """Class.field of the innermost dataclass that still holds a TypeVarValue of `domain` (structural walk)."""
+_LEAF_TYPES = (str, int, float, complex, bytes, bool, type(None), type, enum.Enum, types.FunctionType,
+               types.BuiltinFunctionType, types.ModuleType)
+
+
+def find_typevar_holder(root, domain):
+    """Independent structural walk (dataclass fields, tuples, lists, dict values - not pyanalyze's walk_values):
+    a true value if a TypeVarValue of a variable in `domain`, or such a TypeVar itself (e.g. held by a CustomCheck),
+    is reachable from `root`; None otherwise."""
     seen = set()
-
-    def walk(obj, owner, depth):
-        if depth > 40 or id(obj) in seen:
-            return None
-        seen.add(id(obj))
-        if isinstance(obj, TypeVarValue) and obj.typevar in domain:
-            return owner
-        if isinstance(obj, TypeVar) and obj in domain:  # e.g. held by a CustomCheck
-            return owner
-        fs = _fields(obj)
-        if fs is not None:
-            for name, c in fs:
-                r = walk(c, f"{type(obj).__name__}.{name}", depth + 1)
-                if r:
-                    return r
+    stack = [root]
+    pop, push, extend = stack.pop, stack.append, stack.extend
+    while stack:
+        obj = pop()
+        if obj is None or isinstance(obj, _LEAF_TYPES):
+            continue
+        if isinstance(obj, TypeVarValue):
+            if obj.typevar in domain:
+                return "TypeVarValue"
+        elif isinstance(obj, TypeVar) and obj in domain:
+            return "TypeVar"
+        i = id(obj)
+        if i in seen:
+            continue
+        seen.add(i)
+        names = _field_names(type(obj))
+        if names:
+            for name in names:
+                push(getattr(obj, name, None))
         elif isinstance(obj, (tuple, list)):
-            for c in obj:
-                r = walk(c, owner, depth + 1)
-                if r:
-                    return r
+            extend(obj)
         elif isinstance(obj, dict):
-            for c in obj.values():
-                r = walk(c, owner, depth + 1)
-                if r:
-                    return r
-        return None
-
-    return walk(root, "value", 0)
+            extend(obj.values())
+    return None
 
 
 # ---------------------------------------------------------------------------
@@ -557,6 +561,7 @@ def laws_unary(a, spec, maps, rec, st, builder=None) -> None:
     # substitution
     tvs = vg.spec_typevars(spec)
     below = holders_of_typevars(spec)
+    parts_cache = {}
     # substitution rebuilds nested values, so for subst(a, m) == a every union *inside* a must be normal too
     subst_id_ok = normal and not deep_non_normal(a)
     if normal and not subst_id_ok:
@@ -585,7 +590,7 @@ def laws_unary(a, spec, maps, rec, st, builder=None) -> None:
         complete = check_subst_complete(r, m, rec, st, lambda: f"subst({a}, m)", mspec)
         # a result that still mentions a variable differs from the reference for that very reason: one report
         if builder is not None and (tvs & dom) and complete:
-            check_subst_by_parts(builder, a, spec, r, mspec, m, rec, st)
+            check_subst_by_parts(builder, a, spec, r, mspec, m, rec, st, parts_cache)
 
 
 def _has_leftover(obj, m) -> bool:
@@ -699,7 +704,7 @@ def _splices_paramspec(spec, dom) -> bool:
     return any(k == "ps" and a[0] == "paramspec" and a[1] in dom for sg in sigs for _, k, _, a in sg[1])
 
 
-def subst_by_parts(builder, a, spec, mspec, m):
+def subst_by_parts(builder, a, spec, mspec, m, cache=None):
     """Reference result of subst(a, m), one level deep: substitute in the direct parts (pyanalyze's substitution of
     the *parts*), then apply a's own constructor to them - the documented smart constructor where the raw one is not
     closed under substitution (Type[...]: SubclassValue.make, Annotated: annotate_value, unions: unite_values).
@@ -708,21 +713,26 @@ def subst_by_parts(builder, a, spec, mspec, m):
     if kind == "typevar":
         tv = vg.TYPEVARS[spec[1]][0]
         return (m[tv] if tv in m else a), None
-    kids = vg.children(spec)
-    if not kids:
+    if cache is None:
+        cache = {}
+    if "kids" not in cache:  # the parts of a, built once per value (not once per map)
+        kids = vg.children(spec)
+        cache["kids"] = [builder.build(k) for k in kids]
+        cache["same"] = bool(kids) and eq(a, builder.build(spec))
+        cache["metas"] = [builder.build_meta(x) for x in spec[2]] if kind == "annotated" else []
+    if not cache["kids"]:
         return None, "no-parts"
     if _splices_paramspec(spec, set(mspec)):
         return None, "paramspec-parameters-spliced"
-    if not eq(a, builder.build(spec)):
+    if not cache["same"]:
         return None, "value-not-equal-to-a-rebuilt-copy"  # e.g. it holds a literal that is not == itself
-    new = [builder.build(k).substitute_typevars(m) for k in kids]
+    new = [k.substitute_typevars(m) for k in cache["kids"]]
     if kind == "subclass":
         return SubclassValue.make(new[0], exactly=bool(spec[2])), None
     if kind == "union":
         return pv.unite_values(*new), None
     if kind == "annotated":
-        metas = [builder.build_meta(x).substitute_typevars(m) for x in spec[2]]
-        return annotate_value(new[0], metas), None
+        return annotate_value(new[0], [x.substitute_typevars(m) for x in cache["metas"]]), None
     if kind in ("callable", "overloaded"):
         sigs = [spec] if kind == "callable" else spec[1]
         at = 0
@@ -735,11 +745,11 @@ def subst_by_parts(builder, a, spec, mspec, m):
     return builder.build_shell(spec, new), None
 
 
-def check_subst_by_parts(builder, a, spec, r, mspec, m, rec, st) -> None:
+def check_subst_by_parts(builder, a, spec, r, mspec, m, rec, st, cache=None) -> None:
     """subst(C(x1..xn), m) == C(subst(x1, m) .. subst(xn, m)): every occurrence is replaced, by the map's value, and
     nothing else changes (Type[X].subst(m) == Type[X.subst(m)], ...)."""
     try:
-        expected, skipped = subst_by_parts(builder, a, spec, mspec, m)
+        expected, skipped = subst_by_parts(builder, a, spec, mspec, m, cache)
     except Exception as e:  # noqa: BLE001
         st.histo("subst_by_parts_reference_raised", f"{spec[0]}:{type(e).__name__}")
         return
@@ -1205,6 +1215,9 @@ def shard(ctx) -> None:
     nmaps = [(ms, nb.build_map(ms)) for ms in nmapspecs]
     k = len(vg.CORE_MAPS)
     pair_maps = nmaps[:4] + nmaps[k:k + 2] + nmaps[-4:-3]
+    # two-level nestings test propagation through two constructors: the quick tier gives them one replacement value
+    # per constructor family (the one-level nestings get every map)
+    deep_maps = ctx.pick([nmaps[i] for i in (0, 2, 3, 4, 5, k, k + 3, k + 6, k + 9)], nmaps)
     partner_specs = [["generic", "set", [["typevar", "T"]]], ["typed", "int"], ["typevar", "T"]]
     partners = [nb.build(x) for x in partner_specs]
     n_level1 = len(vg.nesting_specs(levels=1))
@@ -1213,7 +1226,7 @@ def shard(ctx) -> None:
             continue
         a = nb.build(spec)
         cur["ops"] = [spec]
-        laws_unary(a, spec, nmaps, rec, st, builder=nb)
+        laws_unary(a, spec, nmaps if idx < n_level1 else deep_maps, rec, st, builder=nb)
         ctx.count("evaluations")
         ctx.count("nesting_cases")
         st.histo("nesting_slot", tag.split(" <- ")[0])
